@@ -294,6 +294,9 @@ func (r *Run) Logf(format string, args ...any) {
 // Finish writes the evidence file and exits.
 func (r *Run) Finish() {
 	r.mu.Lock()
+	if len(r.samples) == 0 && r.ReplayFile == "" && r.violations == 0 {
+		r.inconcl = append(r.inconcl, "the run recorded no sample case")
+	}
 	cov := map[string]any{
 		"evaluations":         r.evals,
 		"distinct_nontrivial": len(r.distinct),
